@@ -71,9 +71,36 @@ static void keyset_histories() {
     sample("keysets/lambda=128/A,B-alternate-then-C-replaces-A: key sets A and B generated from one parameter object; all 14 gates under A, B, A, B; A deleted, C generated; all gates under C, B, C; ciphertexts are elements 1..4 of one array of 5");
 }
 
+// argument shapes of one gate call: the result object is one of the inputs (in place), and inputs whose advisory variance field is 0 although
+// their mask is not (ciphertexts filled from raw a[], b: the field is bookkeeping, the phase is what makes an input admissible)
+static void shape_cases() {
+    for (int lam : {128, 80}) {
+        Keys *K = nullptr; LweSample *in[3] = {0, 0, 0}, *out = nullptr;
+        auto ensure = [&]() { if (!K) { K = make_keys(lam, 5); for (int q = 0; q < 3; q++) in[q] = new_gate_bootstrapping_ciphertext(K->ps); out = new_gate_bootstrapping_ciphertext(K->ps); } };
+        for (const Gate &g : table()) { if (g.arity == 0) continue;
+            for (int row = 0; row < (1 << g.arity); row++) for (int shape = 0; shape <= g.arity + 1; shape++) {
+                // shape 0: variance fields zeroed; shape 1..arity: result = input shape-1; shape arity+1: variance fields set to a large value
+                std::string key = fmt("shape/lambda=%d/%s/row=%d/%s", lam, g.name, row, shape == 0 ? "variance-field=0" : shape == g.arity + 1 ? "variance-field=1" : fmt("result=input%d", shape - 1).c_str());
+                if (!take(key)) continue; if (deadline()) return; ensure(); current(key);
+                { uint32_t sd[2] = {(uint32_t)fnv(key.data(), key.size()), (uint32_t)S().seed}; tfhe_random_generator_setSeed(sd, 2); }
+                int bits[3] = {row & 1, (row >> 1) & 1, (row >> 2) & 1};
+                for (int q = 0; q < g.arity; q++) { bootsSymEncrypt(in[q], bits[q], K->sk); if (shape == 0) in[q]->current_variance = 0.; if (shape == g.arity + 1) in[q]->current_variance = 1.; }
+                LweSample *r = (shape >= 1 && shape <= g.arity) ? in[shape - 1] : out;
+                apply(g, r, in[0], in[1], in[2], bits[0], K->ck);
+                int want = g.truth(bits[0], bits[1], bits[2]), got = bootsSymDecrypt(r, K->sk);
+                if (got != want) violation(key, fmt("%s(%d,%d,%d) %s decrypts to %d, truth table says %d (lambda=%d, output phase %.5f)", g.name, bits[0], bits[1], bits[2], shape == 0 ? "on inputs whose variance field is 0" : shape == g.arity + 1 ? "on inputs whose variance field is 1" : "with the result object equal to an input", got, want, lam, t32tod(lwePhase(r, K->sk->lwe_key))));
+                if (g.boots) { int64_t e = ref::sdiff(lwePhase(r, K->sk->lwe_key), want ? MU8 : -MU8); if (e < 0) e = -e; if (e >= (1 << 27)) violation(key, fmt("%s output phase error %.5f >= 1/32", g.name, (double)e / 4294967296.0)); }
+                eval(1); if (g.boots) nontrivial(1); outcome(mix(mix(fnv(g.name, strlen(g.name)), shape), row * 2 + got));
+            }
+        }
+    }
+    sample("shape/lambda=128/MUX/row=5/result=input2: bootsMUX(c, a, b, c) with fresh a=1, b=0, c=1 decrypts to MUX(1,0,1)=0");
+    sample("shape/lambda=80/XOR/row=1/variance-field=0: fresh inputs whose current_variance field was set to 0 (as after a raw copy of a[], b)");
+}
+
 int main(int argc, char **argv) {
     init(argc, argv);
-    if (opt("keysets") == "1") { keyset_histories(); return finish(); }
+    if (opt("keysets") == "1") { shape_cases(); keyset_histories(); return finish(); }
     int K_ =(int)opti("K", quick() ? 1 : 2); int nk = (int)opti("kinds", quick() ? 3 : 5);
     std::map<int, Keys *> cache;
     // pass 0: 128-bit, pass 1: 80-bit, pass 2: 128-bit again (kinds F only): a gate must not remember the parameter set of an earlier key
